@@ -309,7 +309,64 @@ def gen_cases(tier, seed):
     for n in ((12, 40, 130) if tier == "quick" else (12, 31, 32, 33, 40, 64, 130, 400)):
         for pop in (0, 1):
             cases.append({"id": "many-sources-%d-%s" % (n, "population" if pop else "cache"), "kind": "scale", "sig": ["many-sources", n, pop], "n": n, "pop": pop})
+    # several threads storing for the same subject at once (a multi-threaded SP: assertion consumer and attribute-authority answers), yields
+    # injected inside the library; the operations commute (different sources), so the end state is known
+    for k in range(4 if tier == "quick" else 40):
+        for pop in (0, 1):
+            cases.append({"id": "threads-%d-%s" % (k, "population" if pop else "cache"), "kind": "threads", "sig": ["threads", k, pop], "k": k, "pop": pop,
+                          "threads": 2 + k % 3, "per_thread": 12 if tier == "quick" else 60})
     return cases
+
+
+def run_threads_case(case, ctx):
+    from vlib import interleave
+    counters, viols = {}, []
+    h = Harness(ctx.scratch, case["id"], counters, case["pop"], 2)
+    n, m = case["threads"], case["per_thread"]
+    h.sources = ["https://t%d-aa%02d.example.org/aa" % (t, i) for t in range(n) for i in range(m)]
+    h.compare_every = 10 ** 9
+    try:
+        h.apply(("set", 1, h.sources[0], 500, "int", {"role": ["bystander"]}))          # another subject that must stay as it is
+        h.apply(("set", 0, "https://first.example.org/aa", 1000, "int", {"role": ["first"]}))   # the subject's record exists before the threads start
+        h.sources.append("https://first.example.org/aa")
+        # memory-backed only: the file-backed cache sits on shelve/dbm, which documents that it does not support concurrent access, and the
+        # property speaks of operation sequences - what is checked here is that one thread's store does not undo another's in the cache's own code
+        mem_only = [(n_, b_) for n_, b_ in h.backends() if n_ == "memory"]
+        h.backends = lambda: mem_only
+
+        def worker(t):
+            def run():
+                for i in range(m):
+                    e = "https://t%d-aa%02d.example.org/aa" % (t, i)
+                    info = {"ava": {"role": ["r-%d-%d" % (t, i)]}, "name_id": h.nid(0), "not_on_or_after": h.now + 1000, "session_index": "idx-%d-%d" % (t, i)}
+                    for name, b in h.backends():
+                        if h.via_population:
+                            si = dict(info)
+                            si["issuer"] = e
+                            b.add_information_about_person(si)
+                        else:
+                            b.set(h.nid(0), e, info, info["not_on_or_after"])
+            return run
+        res, errs, stats = interleave.run_threads([worker(t) for t in range(n)], "%s/%s" % (ctx.seed, case["id"]), p=0.2)
+        counters["yields_injected"] = stats["yields_injected"]
+        counters["concurrent_sets"] = n * m
+        for e in errs:
+            if e is not None:
+                viols.append({"key": "C19/concurrent-store-raised", "what": "%d threads storing for one subject: %r" % (n, e)})
+        for t in range(n):
+            for i in range(m):
+                e = "https://t%d-aa%02d.example.org/aa" % (t, i)
+                h.model.setdefault(0, {})[e] = (h.now + 1000, {"ava": {"role": ["r-%d-%d" % (t, i)]}, "name_id": h.nid(0), "not_on_or_after": h.now + 1000,
+                                                               "session_index": "idx-%d-%d" % (t, i)})
+        if not viols:
+            h.compare()
+    except Violation as v:
+        viols.append({"key": v.key, "what": "[%d threads stored for one subject at once] %s" % (n, v.what)})
+    finally:
+        h.close()
+        _rm(h.path)
+    return {"outcome": "violations" if viols else "held", "nontrivial": True, "violations": viols[:3], "counters": counters, "sigs": [["threads", case["k"], case["pop"]]],
+            "evals": n * m}
 
 
 def run_scale(case, ctx):
@@ -359,6 +416,8 @@ def run_case(case, ctx):
 def _run_case(case, ctx):
     if case["kind"] == "scale":
         return run_scale(case, ctx)
+    if case["kind"] == "threads":
+        return run_threads_case(case, ctx)
     counters, viols, sigs = {}, [], []
     rng = random.Random("%s/%s" % (ctx.seed, case["id"]))
     if case["kind"] == "exhaustive":
